@@ -9,12 +9,13 @@ Local Open Scope nat_scope.
 
 (** * C20_bijection *)
 
-(** FiniteDomain over distinct values given as a re-iterable collection: numberize and
-    denumberize are mutually inverse between the values and 0..size-1 (both round trips),
-    contains is membership (= being some denumberize n, n < size), unknown values raise
-    KeyError.  Sizes 0 and 1 are included (no hypothesis on the length). *)
-Theorem C20_bijection : forall vs, NoDup vs ->
-  let d := mk_finite Reiterable vs in
+(** FiniteDomain over distinct values given as any iterable (list, tuple, dict, range, or a
+    one-shot iterator / generator): numberize and denumberize are mutually inverse between the
+    values and 0..size-1 (both round trips), contains is membership (= being some denumberize n,
+    n < size), unknown values raise KeyError.  Sizes 0 and 1 are included (no hypothesis on the
+    length). *)
+Theorem C20_bijection : forall k vs, NoDup vs ->
+  let d := mk_finite k vs in
   dom_size d = Some (length vs) /\
   (forall v, In v vs ->
      exists i, i < length vs /\ dom_numberize d v = Ok (vnat i) /\ dom_denumberize d (vnat i) = Ok v) /\
@@ -54,25 +55,25 @@ Theorem C20_finite_equality : forall k1 k2 v1 v2,
 Proof. exact finite_eq_by_content. Qed.
 Print Assumptions C20_finite_equality.
 
-(** F15.  The same statement for an arbitrary iterable argument is false: built from a one-shot
-    iterator the index is empty and numberize fails on every value ... *)
-Theorem C20_bijection_refuted :
+(** the kind of iterable makes no difference (F15 repaired in /repo 7d2f845) ... *)
+Theorem C20_iterable_kind_irrelevant : forall k k' vs, mk_finite k vs = mk_finite k' vs.
+Proof. exact finite_iterkind_irrelevant. Qed.
+Print Assumptions C20_iterable_kind_irrelevant.
+
+(** ... in particular both round trips hold for a domain built from a one-shot iterator *)
+Theorem C20_bijection_oneshot : forall vs v, NoDup vs -> In v vs ->
+  exists i, i < length vs /\ dom_numberize (mk_finite OneShot vs) v = Ok (vnat i)
+            /\ dom_denumberize (mk_finite OneShot vs) (vnat i) = Ok v.
+Proof. exact finite_bijection_oneshot. Qed.
+Print Assumptions C20_bijection_oneshot.
+
+(** record of F15: for the constructor as it was ([mk_finite_old], index built from the exhausted
+    argument) the statement failed *)
+Theorem C20_bijection_refuted_old :
   ~ (forall k vs, NoDup vs -> forall v, In v vs ->
-       exists i, dom_numberize (mk_finite k vs) v = Ok (vnat i)).
-Proof. exact bijection_refuted_oneshot. Qed.
-Print Assumptions C20_bijection_refuted.
-
-Theorem C20_oneshot_numberize : forall vs v, dom_numberize (mk_finite OneShot vs) v = Err KeyErr.
-Proof. exact finite_oneshot_numberize. Qed.
-Print Assumptions C20_oneshot_numberize.
-
-(** ... while size, contains, denumberize and == are unaffected *)
-Theorem C20_oneshot_rest : forall vs,
-  let d := mk_finite OneShot vs in let d' := mk_finite Reiterable vs in
-  dom_size d = dom_size d' /\ (forall v, dom_contains d v = dom_contains d' v) /\
-  (forall n, dom_denumberize d n = dom_denumberize d' n) /\ dom_eqb d d' = true.
-Proof. exact finite_oneshot_rest. Qed.
-Print Assumptions C20_oneshot_rest.
+       exists i, dom_numberize (mk_finite_old k vs) v = Ok (vnat i)).
+Proof. exact bijection_refuted_oneshot_old. Qed.
+Print Assumptions C20_bijection_refuted_old.
 
 (** RangeDomain of size n: the identity bijection on the integers 0..n-1 (no range check in
     numberize / denumberize); contains decides 0 <= z < n on integers; non-numbers raise TypeError *)
@@ -233,48 +234,51 @@ Print Assumptions C20_apply_oracle_sound.
 
 (** * C20_binding *)
 
-(** add_factor as coded succeeds iff: terminal label; no different label of that name in the
-    label table; same arity; every node label mapped to a domain equal (by content) to the
-    factor's.  ("and the label is not already bound" is NOT among the conditions: see below.) *)
+(** add_factor succeeds iff: terminal label; no different label of that name in the label
+    table; same arity; every node label mapped to a domain equal (by content) to the factor's;
+    and the label is not already bound (F14 repaired in /repo 19d007a) *)
 Theorem C20_binding : forall s e f,
   snd (add_factor s e f) = RNone <->
   el_terminal e = true /\
   (forall e', el_find (st_els s) (el_name e) = Some e' -> e' = e) /\
   length (fac_doms f) = length (el_type e) /\
   Forall2 (fun nl d => exists d', dget Nat.eqb (st_doms s) nl = Some d' /\ dom_content d = dom_content d')
-          (el_type e) (fac_doms f).
+          (el_type e) (fac_doms f) /\
+  dmem Nat.eqb (st_facs s) (el_name e) = false.
 Proof. exact add_factor_iff. Qed.
 Print Assumptions C20_binding.
 
-(** F14.  The property as stated (success iff [bind_spec], which includes "not already bound")
-    is refuted: a bound label is silently rebound ... *)
-Theorem C20_binding_refuted :
-  ~ (forall s e f, snd (add_factor s e f) = RNone <-> bind_spec s e f = true).
-Proof. exact binding_full_refuted. Qed.
-Print Assumptions C20_binding_refuted.
-
-Theorem C20_binding_refuted_witness :
-  dmem Nat.eqb (st_facs f14_state) 0 = true /\
-  snd (add_factor f14_state (0, [], true) (FConst [] 2)) = RNone /\
-  dget Nat.eqb (st_facs (fst (add_factor f14_state (0, [], true) (FConst [] 2)))) 0 = Some (FConst [] 2).
-Proof. exact binding_refuted. Qed.
-Print Assumptions C20_binding_refuted_witness.
-
-(** ... and holds under the guard that the label has no factor yet *)
-Theorem C20_binding_guarded : forall s e f, dmem Nat.eqb (st_facs s) (el_name e) = false ->
-  (snd (add_factor s e f) = RNone <-> bind_spec s e f = true).
-Proof. exact binding_guarded. Qed.
-Print Assumptions C20_binding_guarded.
+(** the same through the boolean specification the oracle evaluates, and its meaning *)
+Theorem C20_binding_spec : forall s e f, snd (add_factor s e f) = RNone <-> bind_spec s e f = true.
+Proof. exact add_factor_spec. Qed.
+Print Assumptions C20_binding_spec.
 
 Theorem C20_bind_spec_meaning : forall s e f,
-  bind_spec_guarded s e f = true <->
+  bind_spec s e f = true <->
   el_terminal e = true /\
   (forall e', el_find (st_els s) (el_name e) = Some e' -> e' = e) /\
   length (fac_doms f) = length (el_type e) /\
   Forall2 (fun nl d => exists d', dget Nat.eqb (st_doms s) nl = Some d' /\ dom_content d = dom_content d')
-          (el_type e) (fac_doms f).
-Proof. exact bind_spec_guarded_iff. Qed.
+          (el_type e) (fac_doms f) /\
+  dmem Nat.eqb (st_facs s) (el_name e) = false.
+Proof. exact bind_spec_iff. Qed.
 Print Assumptions C20_bind_spec_meaning.
+
+(** a bound label is refused and keeps its factor *)
+Theorem C20_binding_bound : forall s e f, dmem Nat.eqb (st_facs s) (el_name e) = true ->
+  snd (add_factor s e f) = RErr ValueErr /\ st_facs (fst (add_factor s e f)) = st_facs s.
+Proof. exact add_factor_bound. Qed.
+Print Assumptions C20_binding_bound.
+
+(** record of F14: add_factor as it was ([add_factor_old], `el in self.factors`) rebound a bound
+    label; the present one refuses the same call *)
+Theorem C20_binding_refuted_old :
+  dmem Nat.eqb (st_facs f14_state) 0 = true /\
+  snd (add_factor_old f14_state (0, [], true) (FConst [] 2)) = RNone /\
+  dget Nat.eqb (st_facs (fst (add_factor_old f14_state (0, [], true) (FConst [] 2)))) 0 = Some (FConst [] 2) /\
+  snd (add_factor f14_state (0, [], true) (FConst [] 2)) = RErr ValueErr.
+Proof. exact binding_refuted_old. Qed.
+Print Assumptions C20_binding_refuted_old.
 
 (** effect of a successful / failed binding on the tables *)
 Theorem C20_binding_post : forall s e f, snd (add_factor s e f) = RNone ->
@@ -333,21 +337,17 @@ Print Assumptions C20_shape_after_binding_finite.
 Theorem C20_new_finite_factor : forall s n w f,
   snd (new_finite_factor s n w) = RFac f <->
   exists e doms, el_find (st_els s) n = Some e /\ el_terminal e = true /\
+    dmem Nat.eqb (st_facs s) n = false /\
     mapM (fun nl => match dget Nat.eqb (st_doms s) nl with Some d => Ok d | None => Err KeyErr end) (el_type e) = Ok doms /\
     mk_finite_factor doms w = Ok f.
 Proof. exact new_finite_factor_iff. Qed.
 Print Assumptions C20_new_finite_factor.
 
-Theorem C20_new_finite_factor_rebinds :
-  exists s n w f, dmem Nat.eqb (st_facs s) n = true /\ snd (new_finite_factor s n w) = RFac f.
-Proof. exact new_finite_factor_rebinds. Qed.
-Print Assumptions C20_new_finite_factor_rebinds.
-
 (** * The oracles are not stricter than the property: the model's own answers pass them *)
 Require Import Fggs.Proofs.Domain_oracle.
 
-Theorem C20_bij_oracle_complete : forall items probes, NoDup items -> (forall v, In v items -> In v probes) ->
-  let d := mk_finite Reiterable items in
+Theorem C20_bij_oracle_complete : forall k items probes, NoDup items -> (forall v, In v items -> In v probes) ->
+  let d := mk_finite k items in
   bij_oracle items (length items)
              (combine probes (combine (map (dom_contains d) probes) (map (dom_numberize d) probes)))
              (map (fun i => dom_denumberize d (vnat i)) (seq 0 (length items))) = true.
@@ -373,10 +373,8 @@ Theorem C20_apply_oracle_complete : forall doms sh d vs,
 Proof. exact apply_oracle_model. Qed.
 Print Assumptions C20_apply_oracle_complete.
 
-(** the verdict of the binding oracle on the model's own outcome is never 1: it is 3 exactly
-    on the F14 class (all conditions hold and the label is already bound), else 0 *)
+(** the verdict of the binding oracle on the model's own outcome is 0 *)
 Theorem C20_step_oracle_add_factor : forall s e f,
-  step_oracle s (OAddFactor e f) (snd (add_factor s e f)) =
-  if bind_spec_guarded s e f && dmem Nat.eqb (st_facs s) (el_name e) then 3 else 0.
+  step_oracle s (OAddFactor e f) (snd (add_factor s e f)) = 0.
 Proof. exact step_oracle_add_factor. Qed.
 Print Assumptions C20_step_oracle_add_factor.
